@@ -8,8 +8,12 @@ import "time"
 // Inductive step: from ANY state satisfying the invariant I15 (vfI15), every
 // handler re-establishes it; so it holds after histories of any length.
 
-func vfC15Pre() (*Serf, []*memberState) {
-	n := 3
+// vfC15N: members in the arbitrary pre-state (quick 3, thorough 4).
+func vfC15N() int { return 3 + vfTier() }
+
+func vfC15Pre() (*Serf, []*memberState) { return vfC15PreN(vfC15N()) }
+
+func vfC15PreN(n int) (*Serf, []*memberState) {
 	s := vfNewSerf("self", 4)
 	all := vfMembers(s, n)
 	vfAssert("C15.pre.I15", vfI15(s)) // the constructed pre-states satisfy the invariant (sanity)
@@ -21,34 +25,34 @@ func vfC15Post(s *Serf, id string) {
 }
 
 //vf:unwind 12
-//vf:bound members 3 members of symbolic presence/status/times, lists in symbolic order; node = any member or an unknown name
+//vf:bound members quick=3 thorough=4 members of symbolic presence/status/times, lists in symbolic order; node = any member or an unknown name
 func VfC15_Join() {
 	s, _ := vfC15Pre()
-	s.handleNodeJoin(vfNode(vfPickName(3)))
+	s.handleNodeJoin(vfNode(vfPickName(vfC15N())))
 	vfC15Post(s, "C15.join.I15")
 }
 
 //vf:unwind 12
-//vf:bound members 3
+//vf:bound members quick=3 thorough=4
 func VfC15_Leave() {
 	s, _ := vfC15Pre()
-	s.handleNodeLeave(vfNode(vfPickName(3)))
+	s.handleNodeLeave(vfNode(vfPickName(vfC15N())))
 	vfC15Post(s, "C15.leave.I15")
 }
 
 //vf:unwind 12
-//vf:bound members 3
+//vf:bound members quick=3 thorough=4
 func VfC15_Update() {
 	s, _ := vfC15Pre()
-	s.handleNodeUpdate(vfNode(vfPickName(3)))
+	s.handleNodeUpdate(vfNode(vfPickName(vfC15N())))
 	vfC15Post(s, "C15.update.I15")
 }
 
 //vf:unwind 12
-//vf:bound members 3; leave intent with symbolic time and prune flag
+//vf:bound members quick=3 thorough=4; leave intent with symbolic time and prune flag
 func VfC15_LeaveIntent() {
 	s, all := vfC15Pre()
-	who := vfPickName(3)
+	who := vfPickName(vfC15N())
 	prune := vfBool("prune")
 	ltime := LamportTime(vfU64("ltime"))
 	var before *memberState
@@ -69,10 +73,10 @@ func VfC15_LeaveIntent() {
 }
 
 //vf:unwind 12
-//vf:bound members 3
+//vf:bound members quick=3 thorough=4
 func VfC15_JoinIntent() {
 	s, _ := vfC15Pre()
-	s.handleNodeJoinIntent(&messageJoin{LTime: LamportTime(vfU64("ltime")), Node: vfPickName(3)})
+	s.handleNodeJoinIntent(&messageJoin{LTime: LamportTime(vfU64("ltime")), Node: vfPickName(vfC15N())})
 	vfC15Post(s, "C15.joinintent.I15")
 }
 
@@ -101,7 +105,7 @@ func (o *vfOverride) ReconnectTimeout(m *Member, timeout time.Duration) time.Dur
 //vf:unwind 12
 //vf:bound members 3; symbolic now, leave times, timeout and per-member overrides (durations in [0,2^61) ns)
 func VfC15_Reap() {
-	s, all := vfC15Pre()
+	s, all := vfC15PreN(3) // 4 members: > 400 000 paths in 10 min, not finished
 	ov := &vfOverride{use: vfBool("useOverride")}
 	for i := 0; i < 3; i++ {
 		ov.has[i] = vfBool("hasov")
@@ -122,7 +126,7 @@ func VfC15_Reap() {
 		list = s.leftMembers
 	}
 	pre := append([]*memberState(nil), list...)
-	var expired [3]bool
+	var expired [4]bool
 	for i, m := range all {
 		if m != nil && vfInList(pre, m) == 1 {
 			tmo := timeout
